@@ -10,6 +10,7 @@ package txapply
 
 import (
 	"bytes"
+	"encoding/json"
 	"fmt"
 	"math/big"
 
@@ -834,6 +835,15 @@ func (w *world) objseq(env *drive.Env, b *Beh) error {
 	if err != nil {
 		return err
 	}
+	var fields map[string]interface{}
+	if err := json.Unmarshal(jsonB, &fields); err != nil {
+		return err
+	}
+	fields["r"] = "0x0"
+	badJSONB, err := json.Marshal(fields)
+	if err != nil {
+		return err
+	}
 	obj := new(types.Transaction)
 	if err := rlp.DecodeBytes(encA, obj); err != nil {
 		return err
@@ -908,6 +918,21 @@ func (w *world) objseq(env *drive.Env, b *Beh) error {
 					panic(err)
 				}
 				content, via, ev["res"] = "B", op, "ok"
+			case "badrlp":
+				// a damaged encoding of B (cut short): the decoder reports an error; what the value holds afterwards is judged by
+				// the operations that follow
+				if err := rlp.DecodeBytes(encB[:len(encB)-3], obj); err != nil {
+					ev["res"], ev["errmsg"] = "err", err.Error()
+				} else {
+					ev["res"] = "ok"
+				}
+			case "badjson":
+				// B's JSON with an out-of-range signature value (r = 0): rejected after the fields were parsed
+				if err := obj.UnmarshalJSON(badJSONB); err != nil {
+					ev["res"], ev["errmsg"] = "err", err.Error()
+				} else {
+					ev["res"] = "ok"
+				}
 			default:
 				panic("unknown object operation " + op)
 			}
